@@ -30,6 +30,14 @@
 //                                 descriptor, same mask, mode'), enable if it was enabled or arg&4; mode' by arg&3: 0 the other
 //                                 mode, 1 the same mode ("same everything"), 2 one-shot, 3 persistent.  The model takes the
 //                                 mode of the LAST successful initialize().
+//                                 | 10 recycle descriptor F (round 5): close both ends, retire all events of F, open a new pair
+//                                 of the same kind whose watched end gets the SAME descriptor number, watch it again.  arg&1:
+//                                 0 = close while the events are still enabled and retire them afterwards, 1 = retire first;
+//                                 arg&2: retire = 0 disable / 1 destroy (the acting event is only disabled); (arg>>2)&3:
+//                                 0 enable one of the old (disabled, still existing) objects again, 1 re-initialise it on the
+//                                 new descriptor and enable it, 2 create+enable a new event (old objects, if any, stay),
+//                                 3 nothing; arg>>4 picks the old object / the new mask.  No wait call happens between the
+//                                 close and the retirement (both are inside one action), see NOTES.md "domain".
 //                                 T / F are chosen by tk among the CURRENT candidates (sel picks one; no candidate = no-op):
 //                                 0 same descriptor (other event) | 1 another descriptor that is ready in this pass |
 //                                 2 another descriptor that is not ready | 3 any (F: prefers a descriptor without events,
@@ -68,7 +76,7 @@ namespace {
 enum { CFG, FD, EV, PASS, RDY, OUT, CB, INTR, NOPS };
 enum Kind { PIPE_R, PIPE_W, SOCK };
 enum Rdy { R_WRITE, R_DRAIN, R_FILL, R_UNFILL, R_CLOSEPEER, NRDY };
-enum Act { A_DISABLE_SELF, A_ENABLE, A_DISABLE, A_DESTROY, A_CREATE, A_REPLACE, A_CLOSEFD, A_READ, A_REINIT, A_REMODE, NACT };
+enum Act { A_DISABLE_SELF, A_ENABLE, A_DISABLE, A_DESTROY, A_CREATE, A_REPLACE, A_CLOSEFD, A_READ, A_REINIT, A_REMODE, A_RECYCLE, NACT };
 enum TK { T_SAMEFD, T_HOT, T_COLD, T_RAW, T_SELF, NTK };
 const int kMaxFds = 5, kMaxInitEv = 8, kMaxEv = 16, kMaxPasses = 12, kMaxStepsPerPass = 12, kMaxCbPerEv = 8;
 const int kR = FdEvent::kReadEvent, kW = FdEvent::kWriteEvent;
@@ -81,7 +89,7 @@ const int kMaskTab[4] = {kR, kW, kR | kW, 0};
 static const bool kAvoid_oneshot_to_persist_reinit = false;
 bool avoid_sticky() { static bool off = getenv("VERIF_C03_NO_AVOID") != nullptr; return kAvoid_oneshot_to_persist_reinit && !off; }
 
-const char *kActName[] = {"disable-self", "enable", "disable", "destroy", "create", "replace", "close-fd", "read", "re-initialize", "re-initialize-in-place"};
+const char *kActName[] = {"disable-self", "enable", "disable", "destroy", "create", "replace", "close-fd", "read", "re-initialize", "re-initialize-in-place", "recycle-descriptor"};
 
 // ------------------------------------------------------------------------------------------------ definition
 struct DEv { int fdi, mask; bool oneshot, enabled, twice; };
@@ -147,6 +155,8 @@ struct Rec {   // tombstone + model of one event; shared with its callback
   int idx = 0, fdi = 0, mask = 0; bool oneshot = false;
   bool alive = true, enabled = false, doomed = false;
   int fires = 0, fired_pass = -1;
+  int touched_pass = -1;       // somebody enabled/disabled/re-initialised/destroyed it while this pass was being served
+  bool obliged = false;        // enabled and its descriptor ready for a subscribed condition when the pass began
   bool ever_oneshot = false;   // some initialize() of this object asked for kOneshot
   FdEvent *ev = nullptr;
 };
@@ -156,6 +166,8 @@ struct FdSt {
   int passmask = 0;               // union of the masks of all events that existed on it at any time of this pass
   bool targeted = false;          // a callback of this pass touched an event (other than itself) of this descriptor
   int nalive = 0;                 // existing event objects
+  int num = -1;                   // descriptor NUMBER of the watched end (kept across recycling)
+  int gen = 0;                    // how often the descriptor was closed and re-opened under the same number
 };
 struct Flags {   // shape of the case (both back-ends or'ed)
   bool multi_ready = false, kill_same_fd = false, kill_other_ready = false, kill_pending = false, kill_cold = false;
@@ -164,6 +176,7 @@ struct Flags {   // shape of the case (both back-ends or'ed)
   bool hup = false, unwritable = false, deferred_self_delete = false, read_in_cb = false, shared_fd_fired = false;
   bool nt = false, err_ambiguous = false, reinit_in_cb = false;
   bool remode_to_oneshot = false, remode_to_persist = false, remode_same = false, remode_second_life = false, remode_fresh = false, remode_in_cb = false, init_twice = false;
+  bool recycle_in_cb = false, recycle_outside = false, close_before_retire = false, rewatch_old_object = false, new_event_old_alive = false, cb_on_recycled = false, obligations = false;
   bool intr_blocked = false, intr_eintr = false, intr_with_enabled_idle = false, intr_not_blocking = false;
   int callbacks = 0;
 };
@@ -197,6 +210,7 @@ struct Run {
   std::vector<FdSt> fds;
   std::vector<std::shared_ptr<Rec>> evs;
   int pass = 0; bool in_cb = false; bool freed_this_pass = false;
+  bool pass_open = false; // between the readiness snapshot of a pass and its end
   bool done = false;      // go() is over (a driver task left behind by an escaped exception must not do anything any more)
   // interrupted waits
   int wk_r = -1, wk_w = -1; FdEvent *wake_ev = nullptr; timer_t tm{}; bool tm_ok = false;
@@ -229,19 +243,9 @@ struct Run {
     std::vector<int> rank(nf); for (int i = 0; i < nf; ++i) rank[order[i]] = i;
     fds.resize(nf);
     for (int i = 0; i < nf; ++i) {
-      FdSt &f = fds[i]; f.kind = d.kinds[i];
-      int a[2];
-      if (f.kind == SOCK) {
-        if (::socketpair(AF_UNIX, SOCK_STREAM | SOCK_NONBLOCK | SOCK_CLOEXEC, 0, a) != 0) { fail("harness: socketpair failed"); return false; }
-        int sz = 2048; ::setsockopt(a[0], SOL_SOCKET, SO_SNDBUF, &sz, sizeof sz); ::setsockopt(a[1], SOL_SOCKET, SO_SNDBUF, &sz, sizeof sz);
-      } else {
-        if (::pipe2(a, O_NONBLOCK | O_CLOEXEC) != 0) { fail("harness: pipe2 failed"); return false; }
-        ::fcntl(a[1], F_SETPIPE_SZ, 4096);
-        if (f.kind == PIPE_W) std::swap(a[0], a[1]);
-      }
-      f.w = ::fcntl(a[0], F_DUPFD_CLOEXEC, 60 + 8 * rank[i]); f.p = ::fcntl(a[1], F_DUPFD_CLOEXEC, 200 + 4 * i);
-      ::close(a[0]); ::close(a[1]);
-      if (f.w < 0 || f.p < 0) { fail("harness: F_DUPFD failed"); return false; }
+      fds[i].kind = d.kinds[i];
+      if (!open_pair(i, 60 + 8 * rank[i])) return false;
+      fds[i].num = fds[i].w;
     }
     if (d.has_intr) {
       int a[2];
@@ -284,6 +288,23 @@ struct Run {
     if (!nothing_ready()) { fl.intr_not_blocking = true; return false; }
     fl.intr_blocked = true;
     for (auto &r : evs) if (r->alive && r->enabled && r->mask) fl.intr_with_enabled_idle = true;
+    return true;
+  }
+  // a fresh pipe / socket pair for descriptor i; the watched end gets the lowest free number >= wmin
+  bool open_pair(int i, int wmin) {
+    FdSt &f = fds[i];
+    int a[2];
+    if (f.kind == SOCK) {
+      if (::socketpair(AF_UNIX, SOCK_STREAM | SOCK_NONBLOCK | SOCK_CLOEXEC, 0, a) != 0) { fail("harness: socketpair failed"); return false; }
+      int sz = 2048; ::setsockopt(a[0], SOL_SOCKET, SO_SNDBUF, &sz, sizeof sz); ::setsockopt(a[1], SOL_SOCKET, SO_SNDBUF, &sz, sizeof sz);
+    } else {
+      if (::pipe2(a, O_NONBLOCK | O_CLOEXEC) != 0) { fail("harness: pipe2 failed"); return false; }
+      ::fcntl(a[1], F_SETPIPE_SZ, 4096);
+      if (f.kind == PIPE_W) std::swap(a[0], a[1]);
+    }
+    f.w = ::fcntl(a[0], F_DUPFD_CLOEXEC, wmin); f.p = ::fcntl(a[1], F_DUPFD_CLOEXEC, 200 + 4 * i);
+    ::close(a[0]); ::close(a[1]);
+    if (f.w < 0 || f.p < 0) { fail("harness: F_DUPFD failed"); return false; }
     return true;
   }
   void teardown() {
@@ -345,6 +366,7 @@ struct Run {
       fail("initialize() of disabled " + evname(t) + " returned false"); return false;
     }
     t.oneshot = oneshot; if (oneshot) t.ever_oneshot = true;
+    if (pass_open) t.touched_pass = pass;
     return true;
   }
   std::shared_ptr<Rec> new_event(int fdi, int mask, bool oneshot, bool enable, bool twice = false) {
@@ -368,16 +390,16 @@ struct Run {
     if (fds[t.fdi].w < 0) return;   // never enable an event of a closed descriptor
     TRACE("  enable %s", evname(t).c_str());
     if (!t.ev->enable()) fail("enable() of " + evname(t) + " returned false");
-    t.enabled = true;
+    t.enabled = true; if (pass_open) t.touched_pass = pass;
   }
   void do_disable(Rec &t) {
     TRACE("  disable %s", evname(t).c_str());
     if (!t.ev->disable()) fail("disable() of " + evname(t) + " returned false");
-    t.enabled = false;
+    t.enabled = false; if (pass_open) t.touched_pass = pass;
   }
   void do_destroy(Rec &t) {
     TRACE("  destroy %s", evname(t).c_str());
-    delete t.ev; t.ev = nullptr; t.alive = false; t.enabled = false;
+    delete t.ev; t.ev = nullptr; t.alive = false; t.enabled = false; if (pass_open) t.touched_pass = pass;
     if (--fds[t.fdi].nalive == 0 && in_cb) { freed_this_pass = true; fl.freed_in_cb = true; }
   }
 
@@ -401,11 +423,11 @@ struct Run {
     if (cand.empty()) return nullptr;
     return evs[cand[sel % (int)cand.size()]];
   }
-  int pick_fd(const Rec *self, int tk, int sel, bool prefer_empty) const {
+  int pick_fd(const Rec *self, int tk, int sel, bool prefer_empty, bool closed_too = false) const {
     if (!self && (tk == T_SELF || tk == T_SAMEFD)) tk = T_RAW;
     std::vector<int> cand, empty;
     for (int i = 0; i < (int)fds.size(); ++i) {
-      if (fds[i].w < 0) continue;
+      if (fds[i].w < 0 && !closed_too) continue;
       bool own = self && self->fdi == i;
       bool ok = false;
       switch (tk) {
@@ -503,6 +525,39 @@ struct Run {
         if (self) { fds[f].targeted = true; fl.reinit_in_cb = true; }
         do_enable(*t);
         break; }
+      case A_RECYCLE: {
+        int f = pick_fd(self, a.tk, a.sel, false, true); if (f < 0) break;
+        FdSt &F = fds[f];
+        bool retire_first = a.arg & 1, destroy = a.arg & 2; int watch = (a.arg >> 2) & 3, sub = a.arg >> 4;
+        bool had_enabled = false;
+        auto retire = [&] {
+          for (auto &e : evs) if (e->alive && e->fdi == f) {
+            if (e->enabled) had_enabled = true;
+            if (e.get() != self) touch(self, *e, true, destroy);
+            if (destroy && e.get() != self && !e->doomed) do_destroy(*e); else do_disable(*e);
+          }
+        };
+        TRACE("  recycle descriptor %d (fd %d)%s", f, F.num, retire_first ? ", events retired first" : ", closed while its events are enabled");
+        if (retire_first) retire();
+        nodelay_close(F.w); nodelay_close(F.p);
+        if (!retire_first) { retire(); if (had_enabled) fl.close_before_retire = true; }
+        // the new pair: the lowest free number >= the old one IS the old one
+        if (!open_pair(f, F.num)) break;
+        if (F.w != F.num) { fail("harness: the descriptor number was not re-used"); break; }
+        F.gen++;
+        if (self) { fl.recycle_in_cb = true; if (f != self->fdi) F.targeted = true; } else fl.recycle_outside = true;
+        std::vector<int> old; for (auto &e : evs) if (e->alive && !e->doomed && e->fdi == f) old.push_back(e->idx);
+        if (watch == 3) break;
+        if (watch == 2 || old.empty()) {
+          if ((int)evs.size() < kMaxEv && !old.empty()) fl.new_event_old_alive = true;
+          new_event(f, fix_mask(F.kind, kMaskTab[sub & 3] ? kMaskTab[sub & 3] : kR), (sub >> 2) & 1, true);
+        } else {
+          Rec &t = *evs[old[sub % (int)old.size()]];
+          if (watch == 1 && !do_initialize(t, f, t.mask, t.oneshot)) break;
+          fl.rewatch_old_object = true;
+          do_enable(t);
+        }
+        break; }
       case A_REMODE: {
         // re-initialise in place: same descriptor, same mask, possibly another mode (round 4)
         auto t = pick_event(self, a.tk, a.sel); if (!t || fds[t->fdi].w < 0) break;
@@ -543,6 +598,7 @@ struct Run {
     }
     for (auto &o : evs) if (o.get() != r.get() && o->fdi == r->fdi && o->fired_pass == pass) fl.shared_fd_fired = true;
     r->fired_pass = pass;
+    if (f.gen > 0) fl.cb_on_recycled = true;
     trace[pass].push_back({r->idx, m});
     fl.callbacks++;
     int k = r->fires++; if (k > 3) k = 3;
@@ -567,6 +623,12 @@ struct Run {
       if (fds[i].snap_err && fds[i].passmask) { ambiguous[k] = 1; fl.err_ambiguous = true; }
     }
     if (hot >= 2) fl.multi_ready = true;
+    // obligations of this pass (liveness, per back-end): enabled now, descriptor ready for a subscribed condition now
+    for (auto &r : evs) {
+      r->obliged = r->alive && r->enabled && fds[r->fdi].w >= 0 && !fds[r->fdi].snap_err && (r->mask & fds[r->fdi].snap) != 0;
+      if (r->obliged) fl.obligations = true;
+    }
+    pass_open = true;
   }
   void end_pass(int k) {
     // order-independent pass: no callback touched another event of a descriptor that is ready in this pass, and the
@@ -574,6 +636,11 @@ struct Run {
     // one creates an event on an idle descriptor, the other destroys "an event of an idle descriptor")
     for (auto &f : fds) if (f.targeted && (f.snap & f.passmask)) dep[k] = 1;
     if (actors.size() >= 2) dep[k] = 1;
+    pass_open = false;
+    // An event that was enabled on a descriptor ready for a subscribed condition when the wait of this pass was entered,
+    // and that nobody enabled / disabled / re-initialised / destroyed while the pass was served, has had its callback.
+    for (auto &r : evs) if (r->obliged && err.empty() && r->touched_pass != k && r->fired_pass != k)
+      fail("no callback in this pass on " + evname(*r) + " although it was enabled, untouched, and its descriptor was ready for a subscribed condition (readiness 0x" + std::to_string(fds[r->fdi].snap) + ")");
     for (auto &r : evs) if (r->alive && err.empty()) {
       bool real = r->ev->isEnabled();
       if (real != r->enabled) fail("after the pass isEnabled() of " + evname(*r) + " is " + (real ? "true" : "false") + ", the model says " + (r->enabled ? "enabled" : "disabled"));
@@ -693,6 +760,12 @@ std::string run(const Scenario &s, CaseInfo &info) {
   info.cls_if(fl.remode_fresh, "reinit_mode_change_before_first_callback");
   info.cls_if(fl.init_twice, "initialize_twice_at_creation");
   info.cls_if(fl.remode_in_cb, "reinit_in_place_inside_callback");
+  info.cls_if(fl.recycle_in_cb, "descriptor_recycled_in_callback");
+  info.cls_if(fl.recycle_outside, "descriptor_recycled_between_passes");
+  info.cls_if(fl.close_before_retire, "descriptor_closed_while_events_enabled_then_retired");
+  info.cls_if(fl.rewatch_old_object, "recycled_number_watched_by_old_object");
+  info.cls_if(fl.new_event_old_alive, "recycled_number_watched_by_new_event_while_old_object_exists");
+  info.cls_if(fl.cb_on_recycled, "callback_on_recycled_descriptor");
   info.cls_if(fl.intr_blocked, "pass_blocks_in_wait_until_signal");
   info.cls_if(fl.intr_eintr, "wait_interrupted_by_signal_EINTR");
   info.cls_if(fl.intr_eintr && fl.intr_with_enabled_idle, "EINTR_with_enabled_events_on_not_ready_descriptors");
@@ -772,19 +845,21 @@ SubDef def = [] {
       int actor_fd = (int)rng(0, nf - 1);   // independent family: only this descriptor's callbacks act beyond their own event
       auto action = [&](bool local_only) -> std::vector<int64_t> {
         if (independent) {
-          switch (local_only ? pick({{3, 0}, {3, 2}, {4, 6}, {3, 7}}) : pick({{2, 0}, {4, 1}, {2, 2}, {2, 3}, {3, 4}, {2, 5}, {3, 6}, {2, 7}, {1, 8}})) {
+          switch (local_only ? pick({{3, 0}, {3, 2}, {4, 6}, {3, 7}}) : pick({{2, 0}, {4, 1}, {2, 2}, {2, 3}, {3, 4}, {2, 5}, {3, 6}, {2, 7}, {1, 8}, {2, 9}})) {
             case 0: return {A_DISABLE_SELF, 0, 0, 0};
             case 1: return {pick({{2, A_ENABLE}, {3, A_DISABLE}, {3, A_DESTROY}, {2, A_REPLACE}}), T_COLD, rng(0, 7), 0};
             case 2: return {A_ENABLE, T_SELF, 0, 0};
             case 3: return {A_DESTROY, T_SELF, 0, 0};
             case 7: return {A_REMODE, T_SELF, 0, rng(0, 7)};
             case 8: return {A_REMODE, T_COLD, rng(0, 7), rng(0, 7)};
+            case 9: return {A_RECYCLE, T_COLD, rng(0, 7), rng(0, 255)};
             case 4: return {A_CREATE, T_COLD, rng(0, 7), rng(0, 15)};
             case 5: return {A_CLOSEFD, T_COLD, rng(0, 7), 0};
             default: return {A_READ, 0, 0, pick({{3, 0}, {2, -1}}) < 0 ? rng(0, 2999) : rng(0, 8)};
           }
         }
-        int64_t a = pick({{2, A_DISABLE_SELF}, {3, A_ENABLE}, {5, A_DISABLE}, {5, A_DESTROY}, {2, A_CREATE}, {4, A_REPLACE}, {1, A_CLOSEFD}, {3, A_READ}, {1, A_REINIT}, {3, A_REMODE}});
+        int64_t a = pick({{2, A_DISABLE_SELF}, {3, A_ENABLE}, {5, A_DISABLE}, {5, A_DESTROY}, {2, A_CREATE}, {4, A_REPLACE}, {1, A_CLOSEFD}, {3, A_READ}, {1, A_REINIT}, {3, A_REMODE}, {3, A_RECYCLE}});
+        if (a == A_RECYCLE) return {a, pick({{5, T_SELF}, {1, T_HOT}, {2, T_COLD}, {1, T_RAW}}), rng(0, 15), rng(0, 255)};
         int64_t tk = a == A_REMODE ? pick({{2, T_SAMEFD}, {2, T_HOT}, {1, T_COLD}, {1, T_RAW}, {4, T_SELF}}) : pick({{3, T_SAMEFD}, {6, T_HOT}, {2, T_COLD}, {2, T_RAW}, {1, T_SELF}});
         return {a, tk, rng(0, 15), a == A_READ ? (rng(0, 1) ? rng(0, 8) : rng(0, 2999)) : rng(0, 15)};
       };
@@ -814,8 +889,8 @@ SubDef def = [] {
           if (what >= 0) mk(RDY, {i, what, pick({{3, 1}, {3, -1}}) < 0 ? rng(1, 3000) : rng(1, 10)});
         }
         if (p && rng(0, 3) == 0) {
-          int64_t a = pick({{4, A_ENABLE}, {2, A_DISABLE}, {1, A_DESTROY}, {2, A_CREATE}, {1, A_REPLACE}, {1, A_CLOSEFD}, {3, A_REMODE}});
-          mk(OUT, {a, T_RAW, rng(0, 15), rng(0, 7)});
+          int64_t a = pick({{4, A_ENABLE}, {2, A_DISABLE}, {1, A_DESTROY}, {2, A_CREATE}, {1, A_REPLACE}, {1, A_CLOSEFD}, {3, A_REMODE}, {3, A_RECYCLE}});
+          mk(OUT, {a, T_RAW, rng(0, 15), a == A_RECYCLE ? rng(0, 255) : rng(0, 7)});
         }
       }
       return sc;
